@@ -72,7 +72,10 @@ def example_sources(rng, k):
         return ["print('skipped', t(%d))" % k], 'SKIP', None
     if r < 0.88:
         # an option on an example that continues over several lines
-        return rng.choice([['u%d = [t(%d),' % (k, k), '      0]'], ['for j%d in range(t(%d)):' % (k, k), '    pass']]), rng.choice(['SKIP', 'ELLIPSIS', 'NORMALIZE_WHITESPACE']), None
+        return rng.choice([['u%d = [t(%d),' % (k, k), '      0]'], ['for j%d in range(t(%d)):' % (k, k), '    pass'],
+                           # ... with a line that holds nothing but a comment (the option still belongs to this example alone)
+                           ['for j%d in range(t(%d)):' % (k, k), '    # nothing to do here', '    pass'],
+                           ['u%d = [t(%d),' % (k, k), '      # the second element', '      0]']]), rng.choice(['SKIP', 'SKIP', 'ELLIPSIS', 'NORMALIZE_WHITESPACE']), None
     if r < 0.92:
         return ["print('a   b    %d' %% t(%d))" % (k, k)], 'NORMALIZE_WHITESPACE', None
     if r < 0.96:
